@@ -1,4 +1,6 @@
 """C03 - key decoding splits any byte stream losslessly into correctly named keys."""
+import os
+
 import enc as encmod
 import common
 import keylib
@@ -30,10 +32,9 @@ class C03(PureCheck):
     def prepare(self, tier):
         self.tables = keylib.Tables()
         common.WORK.mkdir(exist_ok=True)
-        self.tpath = common.WORK / f"keytables-{self.pid}.json"
+        self.tpath = common.WORK / f"keytables-{self.pid}.{os.getpid()}.json"
         self.tables.write(self.tpath)
         self.consts = ""
-        import os
         os.environ["KEYTABLES"] = str(self.tpath)
         self.pipe = keylib.PipeIn()
 
